@@ -93,7 +93,9 @@ func (c *clientWrapper) Stream(ctx context.Context, req client.Request, opts ...
 		}
 		return stream, err
 	} else {
-		slotChain := sentinel.GlobalSlotChain()
+		// a chain of its own, as in Call: adding the outlier slots to the process-wide chain made it
+		// grow by two slots on every call, for every entry of the process
+		slotChain := sentinel.BuildDefaultSlotChain()
 		slotChain.AddRuleCheckSlot(outlier.DefaultSlot)
 		slotChain.AddStatSlot(outlier.DefaultMetricStatSlot)
 		entry, blockErr := sentinel.Entry(
